@@ -185,6 +185,10 @@ impl EventGen for Container {
                 events.extend(&evlist);
                 events.push(OutputEvent::End(self.0.name.clone()));
 
+                if self.0.name == "text" && bbox.is_none() {
+                    // a text element with element content (tspans) still has its anchor point
+                    bbox = new_el.bbox().ok().flatten();
+                }
                 if self.0.name == "defs" || self.0.name == "symbol" {
                     bbox = None;
                 } else if bbox.is_some() {
